@@ -468,6 +468,10 @@ class ArgumentParser(ParserDeprecations, ActionsContainer, ArgumentLinking, argp
         except (TypeError, KeyError) as ex:
             self.error(str(ex), ex)
 
+        finally:
+            if hasattr(self, "print_config"):
+                delattr(self, "print_config")  # a --print_config request must not outlive a failed parse
+
         self._logger.debug("Parsed command line arguments: %s", args)
         return parsed_cfg
 
